@@ -253,14 +253,14 @@ class C22(Prop):
 
     # ------------------------------------------------------------------ generation
     DIRECTED = ["plain_trial", "rect", "shortcut_rank2", "shortcut_cond", "same_subs", "single_sub", "zero_block", "restricted_zero", "grad_const", "row_call",
-                "jacobian", "stokes"]
+                "jacobian", "stokes", "first_row"]
 
     def gen_case(self, rng, k):
         """returns (Case, form, tag) or None"""
         import ufl
         tag = "random"
-        if k % 4 == 0:
-            tag = self.DIRECTED[(k // 4) % len(self.DIRECTED)]
+        if k % 3 == 0:
+            tag = self.DIRECTED[(k // 3) % len(self.DIRECTED)]
         try:
             if tag == "random":
                 C = Case(rng, k)
@@ -295,6 +295,16 @@ class C22(Prop):
             C.sub_names = [[rng.choice(["P1v", "P1", "RT"])] for _ in C.sub_names]
             C._spaces()
             return C, C.form(), tag
+        if tag == "first_row":        # only the first block row of a MixedFunctionSpace system: the highest trial part exceeds every test part
+            C = Case(rng, k, kind="MFS", arity=2, n_sub=rng.choice([2, 3, 3]))
+            p, sh = C.parts[0][0]
+            f = C.coef((), 0)
+            tst = ufl.inner(p, C.coef(sh, 0)) if sh else p * f
+            e = None
+            for q, shq in C.parts[1]:
+                t = tst * (ufl.inner(C.coef(shq, 0), q) if shq else q)
+                e = t if e is None else e + t
+            return C, e * ufl.dx + (e * f) * ufl.ds, tag
         if tag == "row_call":
             C = Case(rng, k, arity=2)
             return C, C.form(), tag
